@@ -28,15 +28,17 @@ def norm(node: ast.AST | str) -> str:
 
 
 class Module:
-    def __init__(self, name: str, src: str, path: str):
+    def __init__(self, name: str, src: str, path: str, subpackage: str | None = None):
         self.name = name  # e.g. "cursor"
         self.path = path
         self.src = src
+        self.subpackage = subpackage  # "transforms" for fakesnow/transforms/show.py: relative imports start one level deeper
         try:
             self.tree = ast.parse(src)
         except SyntaxError as e:  # the tree no longer compiles: not ours to judge
             raise AnalysisError(f"{path}: syntax error {e}") from None
         for parent in ast.walk(self.tree):
+            parent._srcfile = path  # type: ignore[attr-defined]
             for ch in ast.iter_child_nodes(parent):
                 ch._parent = parent  # type: ignore[attr-defined]
         self.imports: dict[str, str] = {}
@@ -59,7 +61,8 @@ class Module:
                 elif isinstance(s, ast.ImportFrom):
                     base = s.module or ""
                     if s.level:
-                        base = PKG + ("." + base if base else "")
+                        anchor = PKG + ("." + self.subpackage if self.subpackage and s.level == 1 else "")
+                        base = anchor + ("." + base if base else "")
                     for a in s.names:
                         self.imports[a.asname or a.name] = f"{base}.{a.name}"
                 elif isinstance(s, ast.If):
@@ -89,7 +92,29 @@ class Module:
                 self.const_stmts[s.target.id] = s
 
     def loc(self, node: ast.AST) -> str:
-        return f"{self.path}:{getattr(node, 'lineno', 0)}"
+        return f"{getattr(node, '_srcfile', self.path)}:{getattr(node, 'lineno', 0)}"
+
+    @classmethod
+    def merged(cls, name: str, parts: list["Module"]) -> "Module":
+        """A package directory presented as one module: the top-level definitions of `__init__.py` and of every sub-module under
+        the package's name (a module turned into a package keeps its name for every rule; nodes remember their own file)."""
+        m = cls.__new__(cls)
+        m.name, m.path, m.subpackage = name, f"{PKG}/{name}/__init__.py", None
+        m.src = "\n".join(p.src for p in parts)
+        m.tree = ast.Module(body=[st for p in parts for st in p.tree.body], type_ignores=[])
+        m.submodules = [p.name.split(".", 1)[1] for p in parts]
+        m.imports, m.functions, m.classes, m.consts, m.const_stmts = {}, {}, {}, {}, {}
+        for p in parts:
+            m.functions.update(p.functions)
+            m.classes.update(p.classes)
+            m.consts.update(p.consts)
+            m.const_stmts.update(p.const_stmts)
+        defined = set(m.functions) | set(m.classes) | set(m.consts)
+        for p in parts:
+            for k, v in p.imports.items():
+                if k not in defined:  # an import of a sibling's definition is the definition itself
+                    m.imports[k] = v
+        return m
 
     def text_sources(self) -> list[tuple[str, ast.AST, ast.AST]]:
         """(name, expression, statement) of every module-level text the module defines, whichever way it spells it: a constant
@@ -147,9 +172,20 @@ class Program:
             if not pkg.is_dir():
                 raise AnalysisError(f"{pkg} does not exist")
             sources = {p.stem: p.read_text() for p in sorted(pkg.glob("*.py"))}
+            for d in sorted(x for x in pkg.iterdir() if x.is_dir() and (x / "__init__.py").exists()):
+                for p in sorted(d.glob("*.py")):
+                    sources[f"{d.name}/{p.stem}"] = p.read_text()
         self.sources = dict(sources)
+        packages: dict[str, list[Module]] = {}
         for name, src in sources.items():
-            self.modules[name] = Module(name, src, f"{PKG}/{name}.py")
+            if "/" in name:
+                pk, stem = name.split("/", 1)
+                packages.setdefault(pk, []).append(Module(f"{pk}.{stem}", src, f"{PKG}/{pk}/{stem}.py", subpackage=pk))
+            else:
+                self.modules[name] = Module(name, src, f"{PKG}/{name}.py")
+        for pk, parts in packages.items():
+            parts.sort(key=lambda m_: (not m_.name.endswith(".__init__"), m_.name))
+            self.modules[pk] = Module.merged(pk, parts)
         self._sqlglot = None
 
     # ------------------------------------------------------------------ lookup
@@ -214,6 +250,8 @@ class Program:
                 modname, rest = parts[1], parts[2:]
                 if modname not in self.modules:
                     modname, rest = "__init__", parts[1:]
+                elif rest and rest[0] in getattr(self.modules[modname], "submodules", ()) and len(rest) > 1:
+                    rest = rest[1:]  # fakesnow.transforms.show.show_keys: a sub-module of a package presented as one module
             m = self.modules.get(modname)
             if m is None or not rest:
                 return None
